@@ -64,17 +64,26 @@ var prop = vh.Define("C03", "roundtrip", func(c Case, r *vh.R) {
 	}
 	mayFail, _ := s.WriteMayFail()
 	if mayFail {
-		r.Class("non-ascii-header")
+		r.Class("write-may-fail")
 	}
 	if werr != nil {
 		if mayFail {
-			r.Class("write-refused-non-ascii-header")
+			r.Class("write-refused-may-fail")
 			return
 		}
 		r.Failf("write-error", "WriteTo failed on a valid bundle: %v", werr)
 		return
 	}
 	x0 := append([]byte{}, buf.Bytes()...)
+	if s.HasCollide() {
+		// how a writer that accepts one field under two spellings folds them is not prescribed;
+		// what it wrote must at least be a bundle its reader accepts
+		r.Class("colliding-header-keys-accepted")
+		if _, rerr := bundle.Read(bytes.NewReader(x0)); rerr != nil {
+			r.Failf("written-unreadable", "WriteTo accepted a header map with one field under two spellings, but bundle.Read rejects the file: %v", rerr)
+		}
+		return
+	}
 	if c.ReadMode > 0 {
 		r.Class("plain-reader")
 	}
